@@ -88,6 +88,20 @@ claim("C12", "proof", "Lean 4 theorems (telescoping volume sums, toIcoMod normal
       COMMON_NOTE + "hypot/arctan2/arccos/cos/sin and d-th roots are external and validated numerically only.",
       "DESIGN.md section 6, C12; notes/C12.md")
 
+claim("C18", "proof", "Lean 4 theorems (assembled row = stencil with ghost-cell law) + dense matrix correspondence + residual monitors",
+      "The sparse-matrix assembly loops of the four scipy operator files are modelled as row programs with the source's "
+      "assignment-vs-accumulate semantics (Model/Matrix.lean), the per-condition get_sparse_matrix_data as BCData. Theorems "
+      "prove that the boundary data evaluate to the ghost-cell law of the C02 model, that an accumulating program's row-vector "
+      "product is the sum of its terms, and that for every number of cells, every condition per side (one- and two-point, "
+      "also at the inner radius of annuli) and all values the assembled M x + v equals the stencil model of C01 (1-d Cartesian, "
+      "polar incl. the r_min = 0 row that needs no condition, conservative spherical, 2-d Cartesian and cylindrical rows) on "
+      "the ghost-extended array - hence the residual the solver checks is the residual of feeding the solution back; a "
+      "curvature row is proved degenerate (solvable only for matching data). The real _get_laplace_matrix (dense) is compared "
+      "entry by entry with the model over exact rationals on all grid classes incl. 3-d, and every solve_poisson_equation / "
+      "solve_laplace_equation result is fed back into field.laplace(bc); unsolvable problems must raise.",
+      COMMON_NOTE + "spsolve/lsmr are external: their output is checked by the residual, never trusted; the 3-d Cartesian "
+      "assembly is modelled and compared but its row theorem is not stated separately.", "DESIGN.md section 6, C18")
+
 # properties not (yet) decided by the machinery
 NOT_APPLICABLE = {}
 
